@@ -8,6 +8,8 @@ Flattened roles (what a person can hold) are numbered in declaration order, a ro
 sub-roles being replaced by its sub-roles.  Role argument token: `-` (no role), `?` (an object
 that is not a Role), `t<k>` (k-th top-level role), `f<k>` (k-th flattened role).
 Members token: `g.r` per person joined by `,` (group index . flattened role index), `-` if none.
+A second group entity (`family`, roles q<k>) uses the same tokens; its role arguments are written
+`T<k>` / `F<k>`.
 """
 from __future__ import annotations
 
@@ -26,14 +28,14 @@ def parse_roles(tok: str):
     return out
 
 
-def role_descriptions(tok: str):
+def role_descriptions(tok: str, prefix: str = "r"):
     descs = []
     for k, (mx, ns) in enumerate(parse_roles(tok)):
-        d = {"key": f"r{k}", "plural": f"r{k}s"}
+        d = {"key": f"{prefix}{k}", "plural": f"{prefix}{k}s"}
         if mx is not None:
             d["max"] = mx
         if ns:
-            d["subroles"] = [f"r{k}s{j}" for j in range(ns)]
+            d["subroles"] = [f"{prefix}{k}s{j}" for j in range(ns)]
         descs.append(d)
     return descs
 
@@ -76,14 +78,35 @@ def role_max(tok: str, rtok: str):
     return top[k]["max"] if rtok[0] == "t" else flat[k]["max"]
 
 
+PERIOD = "2020-01"
+
+
 @functools.lru_cache(maxsize=None)
-def system_for(tok: str):
-    """(tax-benefit system, person entity, group entity) with the role table `tok`."""
-    from openfisca_core import entities, taxbenefitsystems
+def system_for(tok: str, tok2: str = None, contain: str = "c0"):
+    """(tax-benefit system, person entity, group entity[, second group entity]) with the role table
+    `tok` for `household` (roles r<k>) and, when `tok2` is given, a second group entity `family`
+    (roles q<k>).  `contain`: c1 = household declares family in containing_entities, c2 = family
+    declares household, c3 = both.  Every entity carries one float variable (pv / gv / kv, monthly)
+    so that populations and projectors can be *called*."""
+    from openfisca_core import entities, periods, taxbenefitsystems, variables
     person = entities.build_entity("person", "persons", "", is_person=True)
-    group = entities.build_entity("household", "households", "", roles=role_descriptions(tok))
-    tbs = taxbenefitsystems.TaxBenefitSystem([person, group])
-    return tbs, person, group
+    group = entities.build_entity("household", "households", "", roles=role_descriptions(tok),
+                                  containing_entities=("family",) if contain in ("c1", "c3") and tok2 else ())
+    ents = [person, group]
+    if tok2 is not None:
+        ents.append(entities.build_entity("family", "families", "", roles=role_descriptions(tok2, "q"),
+                                          containing_entities=("household",) if contain in ("c2", "c3") else ()))
+    tbs = taxbenefitsystems.TaxBenefitSystem(ents)
+    for name, ent in zip(("pv", "gv", "kv"), ents):
+        tbs.add_variable(type(name, (variables.Variable,), {
+            "value_type": float, "entity": ent, "definition_period": periods.DateUnit.MONTH}))
+    return (tbs, *ents)
+
+
+def role_of(group_entity, rtok: str):
+    """the real Role object of a group entity for `t<k>` / `f<k>` (any letter case)"""
+    k = int(rtok[1:])
+    return group_entity.roles[k] if rtok[0] in "tT" else group_entity.flattened_roles[k]
 
 
 def role_object(tok: str, rtok: str):
@@ -92,11 +115,7 @@ def role_object(tok: str, rtok: str):
         return None
     if rtok == "?":
         return "not-a-role"
-    _, _, group = system_for(tok)
-    k = int(rtok[1:])
-    if rtok[0] == "t":
-        return group.roles[k]
-    return group.flattened_roles[k]
+    return role_of(system_for(tok)[2], rtok)
 
 
 def parse_members(tok: str):
@@ -113,28 +132,45 @@ def fmt_members(ms) -> str:
     return ",".join(f"{g}.{r}" for g, r in ms) if ms else "-"
 
 
-def build_population(tok: str, count: int, members):
+def _set_group(gp, group_entity, count, members, prefix, roles_unset=False, positions=None):
+    import numpy
+    gp.ids = numpy.array([f"{prefix}{j}" for j in range(count)])
+    gp.count = count
+    gp.members_entity_id = numpy.array([g for g, _ in members], dtype=numpy.int64)
+    if not roles_unset:
+        flattened = numpy.empty(len(group_entity.flattened_roles), dtype=object)
+        flattened[:] = list(group_entity.flattened_roles)
+        gp.members_role = flattened[numpy.array([r for _, r in members], dtype=numpy.int64)]
+    if positions is not None:
+        gp.members_position = numpy.array(positions, dtype=numpy.int64)
+
+
+def build_population(tok: str, count: int, members, tok2: str = None, count2: int = 0, members2=None,
+                     contain: str = "c0", roles_unset: bool = False, positions=None):
     """A real Simulation with a Population of len(members) persons and a GroupPopulation of
     `count` groups, memberships set as `SimulationBuilder.join_with_persons` does
     (members_entity_id = integer array, members_role = object array of flattened Role objects;
-    members_position and ordered_members_map are left to the lazy properties).
-    -> (simulation, persons, group_population)"""
+    members_position and ordered_members_map are left to the lazy properties unless `positions`
+    is given, which is then assigned through the setter).  `roles_unset` leaves members_role to its
+    default (every member holds the first flattened role).  With `tok2` a second GroupPopulation
+    `family` over the same persons is set as well.
+    -> (simulation, persons, group_population[, second group population])"""
     import numpy
     from openfisca_core import simulations
-    tbs, person, group = system_for(tok)
+    tbs, person, group, *rest = system_for(tok, tok2, contain)
     sim = simulations.Simulation(tbs, tbs.instantiate_entities())
     persons = sim.persons
-    gp = sim.populations[group.key]
     n = len(members)
     persons.ids = numpy.array([f"p{i}" for i in range(n)])
     persons.count = n
-    gp.ids = numpy.array([f"h{j}" for j in range(count)])
-    gp.count = count
-    gp.members_entity_id = numpy.array([g for g, _ in members], dtype=numpy.int64)
-    flattened = numpy.empty(len(group.flattened_roles), dtype=object)
-    flattened[:] = list(group.flattened_roles)
-    gp.members_role = flattened[numpy.array([r for _, r in members], dtype=numpy.int64)]
-    return sim, persons, gp
+    gp = sim.populations[group.key]
+    _set_group(gp, group, count, members, "h", roles_unset, positions)
+    out = [sim, persons, gp]
+    if rest:
+        kp = sim.populations[rest[0].key]
+        _set_group(kp, rest[0], count2, members2, "k")
+        out.append(kp)
+    return tuple(out)
 
 
 # ---- canonical text ---------------------------------------------------------------------
